@@ -17,9 +17,11 @@
                     "order":[keys in completion order], "abandoned":[keys still running at the return]}],
            "same": all runs that return a value return the same value,
            "wf","wf2","wf3","gwf": the hypotheses of the schedule-independence theorems, evaluated}
+  A case with a field "g" instead of "w" is an all-predecessor Graph in batch mode: `handleDag`.
   Interpreter glue only.
 -/
 import EinoV.Oracle.C02Workflow
+import EinoV.Spec.GraphDefWF
 
 namespace EinoV.Oracle.C03Branch
 open Lean EinoV EinoV.Engine EinoV.Oracle.GraphCase
@@ -51,7 +53,25 @@ def runJson (r : Runner FlatMap) (order : List Key) (input : FlatMap) : Json × 
     ("order", J.mkStrs o.completed),
     ("abandoned", J.mkStrs (o.abandoned.map (·.1)))], o.result)
 
+/-- {"kind":"brjoin","mode":"dag","g": graph case (Oracle/GraphCase.lean), "input": "x"}: an
+    all-predecessor Graph with branches, run in batch mode.  The model's run (`runS` under the
+    default schedule; by `dag_result_schedule_independent` every fair schedule that returns a
+    value returns this one), the failures other completion orders of the failing step may
+    report (`alts`) and the hypotheses of the theorem, evaluated. -/
+def handleDag (c : Json) : JE Json := do
+  let g ← J.field c "g"
+  let x ← J.str c "input"
+  let out ← GraphCase.outcomeJson g [("in", x)]
+  let gd ← GraphCase.parseGraph g
+  let r := Engine.compile GraphCase.defaultStepSlack gd
+  pure (Json.mkObj [("result", J.fieldD out "result" Json.null), ("alts", J.fieldD out "alts" (J.mkArr [])),
+    ("wf", Json.bool (Engine.DagRun.dagWFb r)),
+    ("wf2", Json.bool (Engine.DagRun.dagWF2b r)),
+    ("wf3", Json.bool (Engine.DagRun.dagWF3b r)),
+    ("gwf", Json.bool (Engine.DagRun.graphDefWFb gd))])
+
 def handle (c : Json) : JE Json := do
+  if (c.getObjVal? "g").toOption.isSome then return (← handleDag c)
   let w ← C02Workflow.parseWorkflow (← J.field c "w")
   let x ← J.str c "input"
   let orders ← (← J.arr c "orders").mapM (fun o => do (← J.asArr o).mapM J.asStr)
